@@ -226,3 +226,27 @@ func selfCarried(phi *ssa.Phi, cyc map[*ssa.BasicBlock]bool) bool {
 	}
 	return outer >= 2
 }
+
+// VarargValues returns the values packed into a variadic argument (the slice of
+// a freshly allocated array go/ssa builds at the call site), or the argument itself.
+func VarargValues(arg ssa.Value) []ssa.Value {
+	sl, ok := arg.(*ssa.Slice)
+	if !ok {
+		return []ssa.Value{arg}
+	}
+	al, ok := sl.X.(*ssa.Alloc)
+	if !ok {
+		return []ssa.Value{arg}
+	}
+	var out []ssa.Value
+	for _, r := range *al.Referrers() {
+		if ia, ok := r.(*ssa.IndexAddr); ok {
+			for _, rr := range *ia.Referrers() {
+				if st, ok := rr.(*ssa.Store); ok && st.Addr == ia {
+					out = append(out, st.Val)
+				}
+			}
+		}
+	}
+	return out
+}
